@@ -61,6 +61,16 @@ Definition namespace_rules (n : nsreg) (ns : str) (args : list pv) : list rule :
 Definition resolve_event reserved r ev ns args := first_match (event_rules reserved r ev ns args) args.
 Definition resolve_namespace n ns args := first_match (namespace_rules n ns args) args.
 
+(* WHICH registered namespace object the two class-based rules select, named by the key
+   it is registered under (rule 5: the namespace itself; rule 6: the catch-all).  Two
+   instances of one namespace class registered for different namespaces are different
+   targets: the event must run on the object under this key and on no other. *)
+Definition resolve_namespace_key (n : nsreg) (ns : str) : option str :=
+  match lookup ns n with
+  | Some _ => Some ns
+  | None => match lookup star n with Some _ => Some star | None => None end
+  end.
+
 (* the whole routing decision *)
 Inductive outcome :=
 | RunFunction (h : N) (args : list pv)
